@@ -804,5 +804,10 @@ V('C10', 'numpy-reshape-order-C', 'silent', '', 'numpy reshape with the default 
   ('src/pyhf/tensor/numpy_backend.py', '        return np.reshape(tensor, newshape)\n', '        return np.reshape(tensor, newshape, order="C")\n'))
 V('C01', 'numpy-reshape-order-F', 'fire', 'C01.R15', 'numpy reshape in column-major order',
   ('src/pyhf/tensor/numpy_backend.py', '        return np.reshape(tensor, newshape)\n', '        return np.reshape(tensor, newshape, order="F")\n'))
+V('C11', 'shim-data-not-converted', 'fire', 'C11.R8', "shim hands the caller's data to the wrappers unconverted",
+  ('src/pyhf/optimize/common.py', '        objective,\n        tensorlib.astensor(data),\n        pdf,\n        stitch_pars,\n', '        objective,\n        data,\n        pdf,\n        stitch_pars,\n'))
+V('C11', 'data-converted-in-jax-wrapper', 'silent', '', 'the conversion of the data moved from shim into the jax wrapper',
+  ('src/pyhf/optimize/common.py', '        objective,\n        tensorlib.astensor(data),\n        pdf,\n        stitch_pars,\n', '        objective,\n        data,\n        pdf,\n        stitch_pars,\n'),
+  ('src/pyhf/optimize/opt_jax.py', '    tensorlib, _ = get_backend()\n    # NB: tuple arguments that need to be hashable (static_argnums)\n', '    tensorlib, _ = get_backend()\n    data = tensorlib.astensor(data)\n    # NB: tuple arguments that need to be hashable (static_argnums)\n'))
 V("C13", "code4-exponent-mask-strict", "fire", "C13.R3", "code 4 takes exponent 1 (a constant) exactly at |alpha| = alpha0",
   ("src/pyhf/interpolators/code4.py", "            exponents >= self.__alpha0, exponents, self.ones", "            exponents > self.__alpha0, exponents, self.ones"))
